@@ -345,6 +345,16 @@ impl<const D: bool> SimShim<D> {
                             }
                         } else {
                             for (ci, cell) in cells.iter().enumerate() {
+                                if let Some(Contra::RefusedRetry { row: cr, col: cc, bad }) = &r.contra {
+                                    if *cr as usize == ri && *cc as usize == ci {
+                                        // offer a value that must be refused, then carry on
+                                        let res = api!("write_col", write_cell(&mut rw, bad));
+                                        if res.is_ok() {
+                                            // accepted: the row now has a cell too many; let
+                                            // the shape check at end_row / the oracle see it
+                                        }
+                                    }
+                                }
                                 if p.probe_cells {
                                     let st = match catch_unwind(AssertUnwindSafe(|| {
                                         write_cell(&mut rw, cell)
